@@ -11,10 +11,19 @@ import (
 	"github.com/uber-go/tally/v4/internal/verifrt"
 	customtransport "github.com/uber-go/tally/v4/m3/customtransports"
 	m3thrift "github.com/uber-go/tally/v4/m3/thrift/v2"
+	"github.com/uber-go/tally/v4/m3/thriftudp"
 )
 
 // vSizer is a reporter with just what the allocation path needs (no sockets, no goroutines).
 func vSizer(proto Protocol) *reporter {
+	if c12EarlierReporter {
+		// another reporter with the other wire protocol was built earlier in this process
+		other := Compact
+		if proto == Compact {
+			other = Binary
+		}
+		newResourcePool(vFactory(other)).getProto()
+	}
 	pool := newResourcePool(vFactory(proto))
 	p := pool.getProto()
 	return &reporter{
@@ -54,6 +63,15 @@ func c12PerMetric(proto Protocol, kind int, ntags int) {
 	}
 	ts := verifrt.Int64("timestamp")
 	verifrt.Assume(ts >= 0)
+	// the same name and tags may already have been used for another kind of metric
+	switch verifrt.Choose("prior-use", 4) {
+	case 1:
+		r.AllocateCounter(name, tags)
+	case 2:
+		r.AllocateGauge(name, tags)
+	case 3:
+		r.AllocateTimer(name, tags)
+	}
 	var charged int32
 	var m m3thrift.Metric
 	switch kind {
@@ -92,6 +110,17 @@ func c12PerMetric(proto Protocol, kind int, ntags int) {
 	actual := vActual(proto, &m)
 	verifrt.Assert("c12.charged-size-covers-encoded-metric", charged >= actual)
 	verifrt.Reach("c12-per-metric")
+}
+
+var c12EarlierReporter bool
+
+func VerifC12MetricSecondReporterBinary() {
+	c12EarlierReporter = true
+	c12PerMetric(Binary, verifrt.Choose("kind", 5), verifrt.Choose("ntags", 2))
+}
+func VerifC12MetricSecondReporterCompact() {
+	c12EarlierReporter = true
+	c12PerMetric(Compact, verifrt.Choose("kind", 5), verifrt.Choose("ntags", 2))
 }
 
 func c12PerMetricAll(proto Protocol, maxTags int) {
@@ -198,3 +227,48 @@ func c12Batching(k int) {
 
 func VerifC12Batching3() { c12Batching(3) }
 func VerifC12Batching5() { c12Batching(5) }
+
+// VerifC12BatchingAfterSendError (L3 with a fault): the first batch fails to send; the metrics
+// queued afterwards must still go out in batches whose charged sizes fit, nothing twice.
+func VerifC12BatchingAfterSendError() {
+	r, addr := vNew(Compact, 16, 1440, nil)
+	free := r.freeBytes
+	conn := r.client.Transport.(*thriftudp.TUDPTransport).Conn()
+	names := []string{"m0", "m1", "m2", "m3"}
+	sizes := make([]int32, 4)
+	push := func(i int) {
+		sizes[i] = verifrt.Int32("size")
+		verifrt.Assume(verifrt.And(sizes[i] >= 1, sizes[i] <= free))
+		m := m3thrift.Metric{Name: names[i], Timestamp: 1}
+		m.Value.MetricType = m3thrift.MetricType_COUNTER
+		r.metCh <- sizedMetric{m: m, size: sizes[i], set: true}
+	}
+	verifrt.SetSendFault(conn, true)
+	push(0)
+	push(1)
+	verifrt.Assume(sizes[0]+sizes[1] <= free) // one batch
+	r.metCh <- sizedMetric{}                  // flush marker: this batch meets the send error
+	for r.numBatches.Load() < 1 {
+		time.Sleep(time.Millisecond)
+	}
+	verifrt.SetSendFault(conn, false)
+	push(2)
+	push(3)
+	verifrt.Assert("c12.fault.close-ok", r.Close() == nil)
+	seen := map[string]int{}
+	for _, b := range vDecode(addr, Compact) {
+		var sum int32
+		for _, m := range b.batch.Metrics {
+			seen[m.Name]++
+			for i, n := range names {
+				if n == m.Name {
+					sum += sizes[i]
+				}
+			}
+		}
+		verifrt.Assert("c12.fault.charged-sizes-fit-in-free-bytes", sum <= free)
+	}
+	verifrt.Assert("c12.fault.later-metrics-emitted-once", seen["m2"] == 1 && seen["m3"] == 1)
+	verifrt.Assert("c12.fault.nothing-duplicated", seen["m0"] <= 1 && seen["m1"] <= 1)
+	verifrt.Reach("c12-batching-fault")
+}
